@@ -242,6 +242,7 @@ class Contract:
         self.exc_ensures = dict(exc_ensures or {})   # {"ValueError": [exprs that must hold on that exit]} e.g. frame
         self.min_obligations = min_obligations
         self.lemmas = list(lemmas or [])     # callables(engine, state) -> z3 formula: proved in isolation, then assumed
+        self.result_kind = result_kind       # "num"|"seq"|"none"|"bool": the kind every returned value must have (else a failed post on that path)
         self.concrete = concrete             # callable() -> (bad, expected, observed, inputs) native bounded search for a failing input
 
 
@@ -261,7 +262,7 @@ class Engine:
         self.c = contract
         self.qualname = qualname
         self.src = source
-        self.fn = self._extract(source, qualname)
+        self.fn = self._normalise(self._extract(source, qualname))
         self.vcs = []            # (name, hyps, goal, kind, line)
         self.exits = []
         self.loop_ord = 0
@@ -271,6 +272,33 @@ class Engine:
         self.notes = []
 
     # ---- extraction ---------------------------------------------------------------
+    class _IfExpToIf(ast.NodeTransformer):
+        """The only rewriting applied to the extracted text (it keeps Python's meaning: the test is evaluated once, then exactly one branch):
+        `return A if c else B`  ->  `if c: return A` / `else: return B`;   `x = A if c else B`  ->  `if c: x = A` / `else: x = B`.
+        It lets the executor fork on the test, so the branches may be of different kinds (a point vs a tuple of points)."""
+
+        def visit_Return(self, node):
+            if isinstance(node.value, ast.IfExp):
+                v = node.value
+                new = ast.If(test=v.test, body=[self.visit_Return(ast.copy_location(ast.Return(value=v.body), node))],
+                             orelse=[self.visit_Return(ast.copy_location(ast.Return(value=v.orelse), node))])
+                return ast.copy_location(new, node)
+            return node
+
+        def visit_Assign(self, node):
+            if isinstance(node.value, ast.IfExp):
+                v = node.value
+                new = ast.If(test=v.test, body=[self.visit_Assign(ast.copy_location(ast.Assign(targets=node.targets, value=v.body), node))],
+                             orelse=[self.visit_Assign(ast.copy_location(ast.Assign(targets=node.targets, value=v.orelse), node))])
+                return ast.copy_location(new, node)
+            return node
+
+    @classmethod
+    def _normalise(cls, fn):
+        fn = cls._IfExpToIf().visit(fn)
+        ast.fix_missing_locations(fn)
+        return fn
+
     @staticmethod
     def _extract(source, qualname):
         tree = ast.parse(source)
@@ -386,6 +414,14 @@ class Engine:
             env = dict(st.env)
             st2 = State(env, st.pc)
             env["result"] = e.value
+            rk = self.c.result_kind
+            if rk is not None:
+                ok = {"num": isinstance(e.value, Num), "seq": isinstance(e.value, Seq), "none": isinstance(e.value, NoneV),
+                      "bool": isinstance(e.value, BoolV)}.get(rk, True)
+                if not ok:
+                    # a value of another kind is returned on this path: the postcondition fails there iff the path is feasible
+                    self.vc(st, z3.BoolVal(False), "post:result-is-%s@return-L%s" % (rk, e.line), e.line)
+                    return
             for i, ens in enumerate(self.c.ensures):
                 if isinstance(ens, dict):
                     self.skolem_vc(ens, st, st2, "post:%d@return-L%s" % (i, e.line), e.line)
@@ -828,6 +864,7 @@ class Engine:
             raise Unsupported("for over %r" % (seq,))
         st.env[cname] = IntC(0)
         n_z, arr = seq.n, seq.arr
+        st.env["len_" + cname] = Num(n_z, True)      # ghost: the length of the iterated sequence (for invariants / variants over an expression)
         guard = lambda s: s.env[cname].z < n_z
 
         def pre(s):
@@ -940,17 +977,30 @@ class Engine:
 
     def e_IfExp(self, node, st, exits):
         c = to_bool(self.eval(node.test, st, exits))
-        a = self.eval(node.body, st, exits)
-        b = self.eval(node.orelse, st, exits)
+        cs = z3.simplify(c)
+        if z3.is_true(cs):                    # Python evaluates only the selected branch
+            return self.eval(node.body, st, exits)
+        if z3.is_false(cs):
+            return self.eval(node.orelse, st, exits)
+
+        def guarded(sub, g):
+            # evaluate one branch under its guard: obligations raised inside are guarded; facts learnt inside are kept as implications
+            n0 = len(st.pc)
+            st.pc.append(g)
+            try:
+                v = self.eval(sub, st, exits)
+            finally:
+                learnt = st.pc[n0 + 1:]
+                del st.pc[n0:]
+                for f in learnt:
+                    st.pc.append(z3.Implies(g, f))
+            return v
+        a = guarded(node.body, c)
+        b = guarded(node.orelse, z3.Not(c))
         if isinstance(a, Num) and isinstance(b, Num):
             if a.is_int and b.is_int:
                 return Num(z3.If(c, a.z, b.z), True)
             return Num(z3.If(c, a.real(), b.real()), False)
-        cs = z3.simplify(c)
-        if z3.is_true(cs):
-            return a
-        if z3.is_false(cs):
-            return b
         raise Unsupported("conditional expression over non-numbers")
 
     def e_Compare(self, node, st, exits):
